@@ -452,14 +452,6 @@ def _contain(m: EmailMessage, spec: dict, pol) -> None:
       parallel / x-...   <subtype>(content entity)  - RFC 2046: an unknown multipart subtype is read as mixed"""
     kind = spec["container"]
 
-    def entity(headers_from, payload):
-        e = EmailMessage(policy=pol)
-        for h in ("Content-Type", "Content-Transfer-Encoding", "Content-Disposition", "Content-ID"):
-            if headers_from is not None and headers_from[h] is not None:
-                e[h] = str(headers_from[h])
-        e.set_payload(payload)
-        return e
-
     def retype(ctype):
         for h in ("Content-Type", "Content-Transfer-Encoding", "Content-Disposition", "Content-ID"):
             del m[h]
@@ -477,7 +469,10 @@ def _contain(m: EmailMessage, spec: dict, pol) -> None:
         retype("multipart/alternative")
         m.set_payload([plain, inner])
         return
-    content = entity(m, m.get_payload())
+    content = copy.deepcopy(m)                           # the content entity: the message as built, without its message headers
+    for h in list(content.keys()):
+        if not h.lower().startswith("content-"):
+            del content[h]
     extra = []
     for a in spec.get("atts", []):
         if a.get("of_wrapper"):
